@@ -40,17 +40,21 @@ type schedule struct {
 	// event driven churn (block numbers cannot be fixed in advance because they depend on block rewards):
 	early []bool // starts at once, dies 3 blocks after its signature record is in NNS, returns after the Notary role is on chain
 	late  []bool // starts only after the shared transaction data has expired and was re-created by the leader
+	// leaderOutage > 0 (event driven): the leader's process dies leaderDelay blocks after it has published the shared
+	// transaction data of the Notary bootstrap (the others sign meanwhile) and comes back leaderOutage blocks later
+	// (the data is valid for 120 blocks: longer outages return to expired data and stale signatures)
+	leaderOutage, leaderDelay int
 }
 
 func (s schedule) String() string {
-	return fmt.Sprintf("n=%d start=%v absent=%v leaveAt=%v early=%v late=%v cancel(member %d at block %d, restart after %d) more=%v", s.n, s.start, s.absent, s.leaveAt, s.early, s.late, s.cancelMember, s.cancelAt, s.restartAfter, s.more)
+	return fmt.Sprintf("n=%d start=%v absent=%v leaveAt=%v early=%v late=%v cancel(member %d at block %d, restart after %d) more=%v leaderOutage=%d after %d", s.n, s.start, s.absent, s.leaveAt, s.early, s.late, s.cancelMember, s.cancelAt, s.restartAfter, s.more, s.leaderOutage, s.leaderDelay)
 }
 
 func (s schedule) nontrivial() bool {
 	if s.n < 2 {
 		return false
 	}
-	if s.cancelMember >= 0 || s.leaveAt != nil || s.early != nil || len(s.more) > 0 {
+	if s.cancelMember >= 0 || s.leaveAt != nil || s.early != nil || len(s.more) > 0 || s.leaderOutage > 0 {
 		return true
 	}
 	for i := range s.start {
@@ -119,6 +123,7 @@ func driveDeploy(sim *simchain.Sim, s schedule, quiet time.Duration, maxBlocks i
 	left, rejoined := make([]bool, n), make([]bool, n)
 	sigSeen := make([]int, n)
 	firstShared := ""
+	leaderSharedAt, leaderDownAt, leaderBack := -1, -1, false
 	var mu sync.Mutex
 	startMember := func(i int) {
 		ctx, cancel := context.WithCancel(context.Background())
@@ -184,6 +189,33 @@ func driveDeploy(sim *simchain.Sim, s schedule, quiet time.Duration, maxBlocks i
 						startMember(i)
 					}
 				}
+			}
+		}
+		if s.leaderOutage > 0 && started[0] {
+			if leaderSharedAt < 0 && nnsTXT(sim, "designate-committee-notary-tx.bootstrap") != "" {
+				leaderSharedAt = rel
+				h.Op("block +%d: the leader published the shared transaction data", rel)
+			}
+			if leaderSharedAt >= 0 && leaderDownAt < 0 && rel >= leaderSharedAt+s.leaderDelay && runs[0] != nil && !finished[0] && !notaryOn() {
+				leaderDownAt = rel
+				runs[0].cancel()
+				<-runs[0].done
+				runs[0] = nil
+				h.Op("block +%d: the leader's process dies (outage of %d blocks)", rel, s.leaderOutage)
+			}
+			if leaderDownAt >= 0 && !leaderBack && rel >= leaderDownAt+s.leaderOutage {
+				leaderBack = true
+				sig := 0
+				for i := 1; i < n; i++ {
+					if nnsTXT(sim, fmt.Sprintf("designate-committee-notary-%d.bootstrap", i)) != "" {
+						sig++
+					}
+				}
+				h.Op("block +%d: the leader restarts (%d member signature(s) in NNS)", rel, sig)
+				if sig > 0 && s.leaderOutage > 120 {
+					h.Mark("leader-back-to-expired-data-and-stale-signatures")
+				}
+				startMember(0)
 			}
 		}
 		for i := 0; i < n && s.leaveAt != nil; i++ {
@@ -259,7 +291,10 @@ func driveDeploy(sim *simchain.Sim, s schedule, quiet time.Duration, maxBlocks i
 		for _, st := range s.start {
 			bootBudget = max(bootBudget, 250+60*n+st+120)
 		}
-		bootBudget += s.restartAfter
+		bootBudget += s.restartAfter + s.leaderOutage
+		if s.leaderOutage > 0 {
+			bootBudget += 240
+		}
 		for _, in := range s.more {
 			bootBudget += in.restartAfter + 120
 		}
@@ -446,7 +481,10 @@ func runSchedule(s schedule, h *ev.History, col *ev.Collector) {
 	for _, st := range s.start {
 		maxBlocks = max(maxBlocks, 700+150*s.n+st+100)
 	}
-	outage := s.restartAfter
+	outage := s.restartAfter + s.leaderOutage
+	if s.leaderOutage > 0 {
+		outage += 240
+	}
 	for _, in := range s.more {
 		outage += in.restartAfter + 100
 	}
@@ -513,7 +551,7 @@ func runSchedule(s schedule, h *ev.History, col *ev.Collector) {
 func TestC13Deploy(t *testing.T) {
 	theT = t
 	col := ev.New("C13", "deploy",
-		"end-to-end: deploy.Deploy is run by every member of an n-key committee (n from VERIF_C13_N, default 1..4) against an in-process implementation of deploy.Blockchain on a real neo-go core.Blockchain with the Notary service, with the freshly compiled executables; generated schedules: per-member start block (shape late: up to a minority, possibly the leader, 60..500 blocks after the others), a minority of non-leading members absent until the Notary role is on chain, one member interrupted at a generated block and restarted 1..200 blocks later, two or three interruptions of arbitrary members (multi-cancel), churn and expiry-churn around the Notary bootstrap; blocks are produced by the harness when the members are quiescent; oracle: every run returns nil within a block budget (one retry with slower pacing before a violation), Notary and NeoFSAlphabet roles = committee, contract 1 is the supplied NNS, every system name of the neofs zone resolves to exactly one distinct contract carrying the supplied executable, 8+n contracts, the Alphabet contracts hold the whole NEO supply in shares differing by at most one, and a second run of all members changes neither the contract set/update counters nor the NNS storage nor the designations; non-trivial = n>=2 with non-simultaneous start, absence or interruption",
+		"end-to-end: deploy.Deploy is run by every member of an n-key committee (n from VERIF_C13_N, default 1..4) against an in-process implementation of deploy.Blockchain on a real neo-go core.Blockchain with the Notary service, with the freshly compiled executables; generated schedules: per-member start block (shape late: up to a minority, possibly the leader, 60..500 blocks after the others), a minority of non-leading members absent until the Notary role is on chain, one member interrupted at a generated block and restarted 1..200 blocks later, two or three interruptions of arbitrary members (multi-cancel), churn and expiry-churn around the Notary bootstrap, leader-outage (the leader dies 0..3 blocks after publishing the shared transaction data of the Notary bootstrap and returns 30..200 blocks later, i.e. within or beyond the 120-block validity of the data, to the signatures the others published meanwhile); blocks are produced by the harness when the members are quiescent; oracle: every run returns nil within a block budget (one retry with slower pacing before a violation), Notary and NeoFSAlphabet roles = committee, contract 1 is the supplied NNS, every system name of the neofs zone resolves to exactly one distinct contract carrying the supplied executable, 8+n contracts, the Alphabet contracts hold the whole NEO supply in shares differing by at most one, and a second run of all members changes neither the contract set/update counters nor the NNS storage nor the designations; non-trivial = n>=2 with non-simultaneous start, absence or interruption",
 		"the harness owns block production, start, interruption and absence - not the goroutine interleaving inside Deploy", "termination is decided as 'finishes within a budget of blocks'")
 	nsEnv := os.Getenv("VERIF_C13_N")
 	ns := []int{1, 2, 3, 4}
@@ -529,6 +567,9 @@ func TestC13Deploy(t *testing.T) {
 		n := rapid.SampledFrom(ns).Draw(rt, "n")
 		s := schedule{n: n, start: make([]int, n), absent: make([]bool, n), cancelMember: -1}
 		shapes := []string{"simultaneous", "staggered", "staggered", "absent", "cancel", "cancel", "late", "multi-cancel", "multi-cancel", "all-restart"}
+		if n >= 2 {
+			shapes = append(shapes, "leader-outage")
+		}
 		if n >= 4 {
 			shapes = append(shapes, "churn", "expiry-churn")
 		}
@@ -565,6 +606,15 @@ func TestC13Deploy(t *testing.T) {
 				} else {
 					s.start[i] = rapid.IntRange(135, 170).Draw(rt, "lateStart")
 				}
+			}
+		case "leader-outage":
+			// the leader dies right after (0..3 blocks) it has published the shared transaction data of the Notary
+			// bootstrap, the others publish their signatures meanwhile; it returns within the validity of the data
+			// (30, 100) or after the data has expired (125, 140, 200): the stale signatures must be replaced
+			s.leaderDelay = rapid.IntRange(0, 3).Draw(rt, "leaderDelay")
+			s.leaderOutage = rapid.SampledFrom([]int{30, 100, 125, 140, 200}).Draw(rt, "leaderOutage")
+			for i := range s.start {
+				s.start[i] = rapid.IntRange(0, 3).Draw(rt, "startBlock")
 			}
 		case "late":
 			// up to a minority of the members (possibly the leader) starts hundreds of blocks after the others
@@ -690,6 +740,36 @@ func TestC13CrashPoints(t *testing.T) {
 		s.more = []interruption{{0, at, 1}, {1, at, 1}}
 		if !run(s) {
 			return
+		}
+	}
+	col.SetExhaustive(true)
+}
+
+// TestC13LeaderOutage enumerates the event-driven leader outages around the Notary bootstrap.
+func TestC13LeaderOutage(t *testing.T) {
+	theT = t
+	col := ev.New("C13", "leader-outage",
+		"complete enumeration of committee size (VERIF_C13_LO_N, default 2,3) x delay (VERIF_C13_LO_DELAY, default 0,1,2 blocks) x outage (VERIF_C13_LO_OUT, default 100,130 blocks): every member starts at block 0, the leader's process dies <delay> blocks after it has published the shared transaction data of the Notary bootstrap (the others publish their signatures meanwhile) and is started again <outage> blocks later - within the 120-block validity of the data or after its expiry, when the signatures in NNS are stale; same oracle as the generated schedules; non-trivial = every schedule")
+	defer func() { col.Flush(true) }()
+	nshards, shard := envInt("VERIF_NSHARDS", 1), envInt("VERIF_SHARD_INDEX", 0)
+	idx := 0
+	for _, n := range envInts("VERIF_C13_LO_N", []int{2, 3}) {
+		for _, out := range envInts("VERIF_C13_LO_OUT", []int{100, 130}) {
+			for _, delay := range envInts("VERIF_C13_LO_DELAY", []int{0, 1, 2}) {
+				idx++
+				if idx%nshards != shard {
+					continue
+				}
+				s := schedule{n: n, start: make([]int, n), absent: make([]bool, n), cancelMember: -1, leaderOutage: out, leaderDelay: delay}
+				h := ev.NewHistory()
+				h.Op("schedule: %s", s)
+				if !runCase(t, col, h, func() {
+					runSchedule(s, h, col)
+					h.NonTrivial()
+				}) {
+					return
+				}
+			}
 		}
 	}
 	col.SetExhaustive(true)
